@@ -137,20 +137,23 @@ def spec_for(op, a, m, tr):
 
 def jobs(tier):
     out = []
+    TR = traits_of(NAME, OPS, decls=TU_EXTRA)
     for tr in ('eager', 'lazy'):
         for op, a, m, _ in all_roots(tr):
             if tr == 'lazy' and tier != 'thorough' and not (a == 1 and m == 0 and op in ('ifapply', 'apply')):
                 continue
             stubs, post = spec_for(op, a, m, tr)
             con = Contract(comb_requires(), R('g_aturn == 0 && g_acalled[0] == 0 && g_acalled[1] == 0', 'act-pre'),
-                           Clause('assigns', 'IT_FIELDS(in), g_turn, g_pos, g_done, g_iter, g_last, g_called, g_ok, g_len, g_ncalls, vf_exc, vf_exc_counter, g_exc_obj, g_exc_type, '
+                           Clause('assigns', 'IT_FIELDS(in), g_turn, g_pos, g_done, g_iter, g_last, g_called, g_ok, g_len, g_ncalls, g_ae, g_re, g_lp, vf_exc, vf_exc_counter, g_exc_obj, g_exc_type, '
                                   'g_aturn, g_acalled, g_aret, g_sb_off, g_se_off' + (', g_sb_byte, g_sb_line, g_sb_col' if tr == 'eager' else '')))
             for c in comb_common(m, props_rewind=('C02', 'C04')):
                 con.add(c)
             for c in post:
                 con.add(c)
+            for c in c11_premises(TR[op], 0 if op in ('apply', 'apply0') else 1):
+                con.add(c)
             con.add(E('vf_canary', 'canary_exit'))
-            j = Job(rname(op, a, m, tr), 'act_e' if tr == 'eager' else 'act_l', rname(op, a, m, tr), con, ('C04', 'C13', 'C02'),
+            j = Job(rname(op, a, m, tr), 'act_e' if tr == 'eager' else 'act_l', rname(op, a, m, tr), con, ('C04', 'C13', 'C02', 'C11'),
                     stubs=stubs, prelude=act_prelude(tr),
                     harness=comb_harness('vf_' + INPUT_TYPES[(tr, 'lf_crlf')], tr, 'w_ret = $ENTRY(&in)').replace(
                         'vf_exc.pending = 0;', 'vf_exc.pending = 0; vf_exc.obj = 0; g_aturn = 0; g_acalled[0] = g_acalled[1] = 0;'),
